@@ -81,17 +81,22 @@ pub fn search(_obl: &str) -> Vec<Witness> {
     for k in 0..3 { ops.push(Op::SelectFrom(k)); }
     for (x, y) in [(1, 1), (2, 2), (2, 1), (2, 3), (1, 2)] { ops.push(Op::ValuesFrom(x, y)); }
     let mut found: Vec<Witness> = vec![];
+    let mut per_kind: std::collections::HashMap<String, usize> = Default::default();
     let n = ops.len();
-    for len in 1..=4usize {
+    for len in 1..=(if crate::util::deep() { 5usize } else { 4usize }) {
         let mut idx = vec![0usize; len];
         loop {
             let h: Vec<Op> = idx.iter().map(|&i| ops[i]).collect();
-            if let Ok(Some(w)) = std::panic::catch_unwind(|| check(&h)) { found.push(w); if found.len() >= 40 { return found; } }
+            if let Ok(Some(w)) = std::panic::catch_unwind(|| check(&h)) {
+                // at most 6 witnesses per kind of failure (its `expected` text), so that one failing rule cannot hide another
+                let c = per_kind.entry(w.expected.clone()).or_insert(0usize);
+                if *c < 6 { *c += 1; found.push(w); }
+            }
             let mut k = len; let mut done = true;
             while k > 0 { k -= 1; if idx[k] + 1 < n { idx[k] += 1; for j in k + 1..len { idx[j] = 0; } done = false; break; } }
             if done { break; }
         }
-        if !found.is_empty() && len >= 3 { break; }
+        if per_kind.len() >= 2 && len >= 3 { break; }
     }
     found
 }
